@@ -132,9 +132,10 @@ passes a C++ local (`cxx_local_var`) builds it from that local, never from the p
 def StmtRow.ctorVarOk (r : StmtRow) : Bool :=
   r.ctorArgs == 0 || !r.cxxLocal || (r.ctorUsesCxx && !r.ctorUsesC)
 
-/-- an entry that creates the returned object has a `{py_var}` to return. -/
+/-- an entry whose `{py_var}` is returned (`object_created`) owns a reference to it: it made the object or took a
+new reference to the argument object. -/
 def StmtRow.createdOk (r : StmtRow) : Bool :=
-  !r.objectCreated || r.acquires.contains .pyVar || r.handed.contains .pyVar
+  !r.objectCreated || r.acquires.contains .pyVar
 
 structure TypeRow where
   name : Nat
